@@ -174,6 +174,9 @@ def run_base_large(cases):
             lambda: spmatrix([1.0, 2.0], [0, big()], [0, 0], (2, 1)),
             lambda: spmatrix([1.0, 2.0], [0, 1], [0, rnd.choice([2147483646, 1073741824, -1, -2147483648, 2 ** 62])]),    # (mid-size values legitimately allocate)
             lambda: base.spdiag([1.0, 2.0])[big(), big()],
+            lambda: matrix([-9223372036854775807 - 1, 5, big() % (2 ** 63)]) % rnd.choice([-1, 1, 2, -2, big() % (2 ** 63) or 1]),
+            lambda: matrix([-9223372036854775807 - 1, 5]).__imod__(rnd.choice([-1, 1, 0])),
+            lambda: (matrix([-9223372036854775807 - 1, 9223372036854775807]) * rnd.choice([-1, 2, big()]), abs(matrix([-9223372036854775807 - 1])), -matrix([-9223372036854775807 - 1])),
         ]
         o = {"k": k}
         op = ops[(k + rnd.randrange(len(ops))) % len(ops)]
